@@ -121,10 +121,45 @@ unsafe fn vt_wake(p: *const ()) {
 unsafe fn vt_drop(_: *const ()) {}
 static VTABLE: RawWakerVTable = RawWakerVTable::new(vt_clone, vt_wake, vt_wake, vt_drop);
 
+// Alternative waker shape (configuration parameter `altw`): the second waker of a slot (even id)
+// has the SAME data pointer as the first one and a different vtable, instead of the same vtable
+// and a different data pointer. `Waker::will_wake` tells them apart either way; an implementation
+// that compares only the data pointers, or only the vtables, refreshes the stored waker in one of
+// the two modes only.
+unsafe fn vta_clone(p: *const ()) -> RawWaker {
+    RawWaker::new(p, &VTABLE_ALT)
+}
+unsafe fn vta_wake(p: *const ()) {
+    note_wake(p as usize + 1)
+}
+static VTABLE_ALT: RawWakerVTable = RawWakerVTable::new(vta_clone, vta_wake, vta_wake, vt_drop);
+thread_local! {
+    static ALT_WAKERS: Cell<bool> = const { Cell::new(false) };
+}
+pub fn set_alt_wakers(on: bool) {
+    ALT_WAKERS.with(|a| a.set(on));
+}
+pub fn alt_wakers() -> bool {
+    ALT_WAKERS.with(|a| a.get())
+}
+/// code of a vtable address in canonical Debug renderings (None: not one of the harness vtables)
+pub fn vtable_code(addr: usize) -> Option<u8> {
+    if addr == &VTABLE as *const RawWakerVTable as usize {
+        Some(240)
+    } else if addr == &VTABLE_ALT as *const RawWakerVTable as usize {
+        Some(241)
+    } else {
+        None
+    }
+}
+
 /// Non-allocating waker with identity `id` (1..MAX_WAKERS). `Waker::data()`
-/// of every clone equals `id`.
+/// of every clone equals `id` (in `altw` mode: `id - 1` for even ids, see above).
 pub fn waker(id: usize) -> Waker {
     assert!(id > 0 && id < MAX_WAKERS);
+    if alt_wakers() && id % 2 == 0 {
+        return unsafe { Waker::from_raw(RawWaker::new((id - 1) as *const (), &VTABLE_ALT)) };
+    }
     unsafe { Waker::from_raw(RawWaker::new(id as *const (), &VTABLE)) }
 }
 
@@ -357,6 +392,7 @@ pub fn sample_seen(group: usize, slot: usize) -> [u32; 2] {
 pub fn norm(s: &str) -> [u8; 16] {
     let mut seen: Vec<usize> = Vec::with_capacity(16);
     norm_with(s, &mut |addr| match seen.iter().position(|a| *a == addr) {
+        _ if vtable_code(addr).is_some() => vtable_code(addr).unwrap(),
         Some(k) => k as u8,
         None => {
             seen.push(addr);
